@@ -30,7 +30,7 @@ fn level_name(level: u8) -> &'static str {
 }
 
 fn gen_tree_text(rng: &mut Rng, style: LayoutStyle) -> String {
-    let cfg = GenCfg { max_members: 6, max_type_depth: 4, max_args: 3, ..GenCfg::default() };
+    let cfg = GenCfg { max_members: 6, max_type_depth: 4, max_args: 3, deep_types: true, big: true, repeat_method_names: true, ..GenCfg::default() };
     let d = gen::doc(rng, &cfg);
     let r = gen::render(&d);
     gen::layout(&r.toks, rng, style, &r.forced).text
